@@ -299,7 +299,8 @@ def _check(pid, tier, seed, mods, workdir, only, say, t0):
       nparts = m.get("parts", {}).get(tier, 1) if isinstance(m.get("parts"), dict) else m.get("parts", 1)
       to = m.get("timeout", {}).get(tier, 120) if isinstance(m.get("timeout"), dict) else m.get("timeout", 120)
       base_env = {"VERIF_TIER": tier, "VERIF_SEED": seed, "VERIF_KF_ACTIVE": kf_env,
-                  "VERIF_MSGSTUB": "1" if m.get("stub", True) else "0", "VERIF_NPART": nparts}
+                  "VERIF_MSGSTUB": "1" if m.get("stub", True) else "0", "VERIF_NPART": nparts,
+                  "TMPDIR": workdir}        # temporary files of the harness modules die with the run's work directory
       base_env.update(m.get("env", {}))
       for i in range(nparts):
         jobs.append({"file": path, "func": n, "line": funcs[n].lineno + 1, "timeout": to,
